@@ -371,6 +371,137 @@ def rule_r3(chk, p, t):
     r.guard(reg.qualname, three)
 
 
+
+
+def _built_list(fn, listname, par):
+    """`listname` built by appending elements of `par` inside one loop over it: whole when the append is unconditional,
+    a subset when it is guarded; None when the shape is another one."""
+    cfg = cfg_of(fn)
+    apps = [c for c in find_calls(fn.node, "append") if unparse(c.func.value) == listname]
+    loops = [l for l in walk_no_nested(fn.node) if isinstance(l, ast.For) and unparse(l.iter) == par and isinstance(l.target, ast.Name)]
+    if not (apps and len(loops) == 1 and all(len(c.args) == 1 and isinstance(c.args[0], ast.Name) and c.args[0].id == loops[0].target.id for c in apps)):
+        return None
+    tst = None
+    for c in apps:
+        node = cfg.node_of(c)
+        conds = [cid for cid, lab in cfg.control_conditions(node.id) if cfg.nodes[cid].kind == "cond"]
+        if conds:
+            tst = unparse(cfg.nodes[conds[0]].ast)
+    if tst is not None:
+        return "subset", f"{fn.name} keeps an element only when `{tst[:60]}`"
+    return "whole", "element-wise copy"
+
+
+def _selection(p, fi, e, name, depth=0):
+    """Classify expression `e` (locals of `fi` inlined) as the whole sequence `name`, a subset of it, or unknown."""
+    if isinstance(e, ast.Name) and e.id == name:
+        return "whole", "the list itself"
+    if isinstance(e, ast.Name):
+        b = _built_list(fi, e.id, name)
+        if b is not None:
+            return b
+    if isinstance(e, ast.Call) and call_name(e) in ("list", "tuple", "sorted") and e.args and not isinstance(e.args[0], ast.GeneratorExp):
+        return _selection(p, fi, e.args[0], name, depth)
+    if isinstance(e, ast.Call) and call_name(e) == "filter":
+        return "subset", "filter(...)"
+    if isinstance(e, (ast.ListComp, ast.GeneratorExp)) or (isinstance(e, ast.Call) and call_name(e) in ("list", "tuple") and e.args and isinstance(e.args[0], ast.GeneratorExp)):
+        comp = e if isinstance(e, (ast.ListComp, ast.GeneratorExp)) else e.args[0]
+        g = comp.generators
+        if len(g) == 1 and unparse(g[0].iter) == name:
+            if g[0].ifs:
+                return "subset", f"a comprehension that keeps only elements with `{unparse(g[0].ifs[0])[:50]}`"
+            if isinstance(comp.elt, ast.Name) and isinstance(g[0].target, ast.Name) and comp.elt.id == g[0].target.id:
+                return "whole", "element-wise copy"
+        return "unknown", "comprehension"
+    if isinstance(e, ast.Call) and depth < 2:
+        idx = [i for i, a in enumerate(e.args) if isinstance(a, ast.Name) and a.id == name]
+        cn = call_name(e)
+        cands = [f for f in fi.module.functions.values() if f.name == cn] if isinstance(e.func, ast.Name) else []
+        if len(idx) == 1 and len(cands) == 1:
+            callee = cands[0]
+            par = callee.params[idx[0]]
+            from rsa.terms import inline_locals
+
+            rets = [n for n in walk_no_nested(callee.node) if isinstance(n, ast.Return) and n.value is not None]
+            kinds = []
+            for rt in rets:
+                v = rt.value
+                if isinstance(v, ast.Name) and v.id != par:
+                    b = _built_list(callee, v.id, par)
+                    if b is not None:
+                        kinds.append(b)
+                        continue
+                    kinds.append(_selection(p, callee, inline_locals(callee, v), par, depth + 1))
+                else:
+                    kinds.append(_selection(p, callee, inline_locals(callee, v), par, depth + 1))
+            if kinds and all(k[0] == "whole" for k in kinds):
+                return "whole", f"{callee.name} returns its argument"
+            sub = [k for k in kinds if k[0] == "subset"]
+            if sub:
+                return sub[0]
+        return "unknown", f"call of {cn}"
+    return "unknown", "unrecognised expression"
+
+
+def update_hop(r, p):
+    """From the engine's per-target observation list to the filter: the update registration keeps the list it is
+    given, hands exactly that list to the job, and the job passes it to the filter's update - no step selects a
+    subset (a filter on the observation's own epoch float drops imported observations whose stored Julian date
+    differs in the last bit from the run's own)."""
+    from rsa.terms import inline_locals
+
+    UPD = "resonaate.parallel.estimate_update"
+    reg = p.cls(f"{UPD}.EstUpdateRegistration")
+    sub = p.cls(f"{UPD}.EstUpdateSubmission")
+    job = p.func(f"{UPD}.asyncUpdateEstimate")
+    init, gen = reg.methods.get("__init__"), reg.methods.get("generateSubmission")
+    require(init is not None and gen is not None, "EstUpdateRegistration.__init__ / generateSubmission not found", reg.node)
+    obs_param = next((q for q in init.params if "obs" in q), None)
+    bad = []
+    stores = []
+    for n in walk_no_nested(init.node):
+        if isinstance(n, ast.Assign) and len(n.targets) == 1 and isinstance(n.targets[0], ast.Attribute) and unparse(n.targets[0].value) == "self":
+            built = isinstance(n.value, ast.Name) and _built_list(init, n.value.id, obs_param) is not None
+            v = n.value if built else inline_locals(init, n.value)
+            if built or any(isinstance(x, ast.Name) and x.id == obs_param for x in ast.walk(v)):
+                stores.append((n, v))
+    require(len(stores) == 1, "the registration does not store its observations argument in one attribute", init.node)
+    attr = stores[0][0].targets[0].attr
+    kind, why = _selection(p, init, stores[0][1], obs_param)
+    if kind == "subset":
+        bad.append(f"the registration stores `{unparse(stores[0][1])[:70]}`: {why} - a subset of the observations the engine routed to this target; the others are written to the database but never reach the filter, and which ones survive depends on the order the list was filled in (the completion order of the task-execution jobs)")
+    elif kind != "whole":
+        raise Undecided(f"observations stored as `{unparse(stores[0][1])[:80]}` ({why})", stores[0][0])
+    fields = list(sub.class_annots)
+    obs_field = next((f for f in fields if "obs" in f), None)
+    require(obs_field is not None, "EstUpdateSubmission has no observation field", sub.node)
+    ctor = [c for c in walk_no_nested(gen.node) if isinstance(c, ast.Call) and call_name(c) == sub.name]
+    require(len(ctor) == 1, "generateSubmission does not build one EstUpdateSubmission", gen.node)
+    c = ctor[0]
+    val = next((k.value for k in c.keywords if k.arg == obs_field), None)
+    if val is None and fields.index(obs_field) < len(c.args):
+        val = c.args[fields.index(obs_field)]
+    require(val is not None, f"{sub.name}.{obs_field} is not passed", c)
+    e = inline_locals(gen, val)
+    if unparse(e) == f"self.{attr}":
+        pass
+    elif any(isinstance(x, ast.comprehension) and x.ifs for x in ast.walk(e)) or any(isinstance(x, ast.Call) and call_name(x) == "filter" for x in ast.walk(e)):
+        bad.append(f"generateSubmission submits `{unparse(e)[:90]}`: a subset of the observations the engine routed to this target - the others are written to the database but never reach the filter")
+    else:
+        raise Undecided(f"observations submitted as `{unparse(e)[:80]}`", c)
+    ups = [x for x in walk_no_nested(job.node) if isinstance(x, ast.Call) and isinstance(x.func, ast.Attribute) and x.func.attr in ("update", "_update")]
+    require(len(ups) >= 1, "the update job does not call the filter's update", job.node)
+    for u in ups:
+        a0 = inline_locals(job, u.args[0]) if u.args else None
+        if a0 is None or unparse(a0) != f"{job.params[0]}.{obs_field}":
+            bad.append(f"the update job passes `{unparse(a0) if a0 is not None else None}` to {u.func.attr}(), not the submitted observations")
+    if bad:
+        r.violation(reg.qualname, "update-hop:" + ";".join(b[:50] for b in bad), "; ".join(bad), gen.loc(c))
+    else:
+        r.ok(reg.qualname, f"self.{attr} -> {sub.name}.{obs_field} -> filter update, whole list at every hop", gen.loc(c), obligations=2 + len(ups))
+
+
+
 def rule_r4(chk, p, t):
     r = chk.rule(
         "C19.R4",
@@ -536,53 +667,7 @@ def rule_r4(chk, p, t):
 
     r.guard("importer-path-chain", path_chain)
 
-    def update_hop():
-        """From the engine's per-target observation list to the filter: the update registration keeps the list it is
-        given, hands exactly that list to the job, and the job passes it to the filter's update - no step selects a
-        subset (a filter on the observation's own epoch float drops imported observations whose stored Julian date
-        differs in the last bit from the run's own)."""
-        from rsa.terms import inline_locals
-
-        UPD = "resonaate.parallel.estimate_update"
-        reg = p.cls(f"{UPD}.EstUpdateRegistration")
-        sub = p.cls(f"{UPD}.EstUpdateSubmission")
-        job = p.func(f"{UPD}.asyncUpdateEstimate")
-        init, gen = reg.methods.get("__init__"), reg.methods.get("generateSubmission")
-        require(init is not None and gen is not None, "EstUpdateRegistration.__init__ / generateSubmission not found", reg.node)
-        bad = []
-        obs_param = next((q for q in init.params if "obs" in q), None)
-        stores = [n for n in walk_no_nested(init.node) if isinstance(n, ast.Assign) and len(n.targets) == 1 and isinstance(n.targets[0], ast.Attribute) and unparse(n.targets[0].value) == "self" and isinstance(n.value, ast.Name) and n.value.id == obs_param]
-        require(len(stores) == 1, "the registration does not store its observations argument in one attribute", init.node)
-        attr = stores[0].targets[0].attr
-        fields = list(sub.class_annots)
-        obs_field = next((f for f in fields if "obs" in f), None)
-        require(obs_field is not None, "EstUpdateSubmission has no observation field", sub.node)
-        ctor = [c for c in walk_no_nested(gen.node) if isinstance(c, ast.Call) and call_name(c) == sub.name]
-        require(len(ctor) == 1, "generateSubmission does not build one EstUpdateSubmission", gen.node)
-        c = ctor[0]
-        val = next((k.value for k in c.keywords if k.arg == obs_field), None)
-        if val is None and fields.index(obs_field) < len(c.args):
-            val = c.args[fields.index(obs_field)]
-        require(val is not None, f"{sub.name}.{obs_field} is not passed", c)
-        e = inline_locals(gen, val)
-        if unparse(e) == f"self.{attr}":
-            pass
-        elif any(isinstance(x, ast.comprehension) and x.ifs for x in ast.walk(e)) or any(isinstance(x, ast.Call) and call_name(x) == "filter" for x in ast.walk(e)):
-            bad.append(f"generateSubmission submits `{unparse(e)[:90]}`: a subset of the observations the engine routed to this target - the others are written to the database but never reach the filter")
-        else:
-            raise Undecided(f"observations submitted as `{unparse(e)[:80]}`", c)
-        ups = [x for x in walk_no_nested(job.node) if isinstance(x, ast.Call) and isinstance(x.func, ast.Attribute) and x.func.attr in ("update", "_update")]
-        require(len(ups) >= 1, "the update job does not call the filter's update", job.node)
-        for u in ups:
-            a0 = inline_locals(job, u.args[0]) if u.args else None
-            if a0 is None or unparse(a0) != f"{job.params[0]}.{obs_field}":
-                bad.append(f"the update job passes `{unparse(a0) if a0 is not None else None}` to {u.func.attr}(), not the submitted observations")
-        if bad:
-            r.violation(reg.qualname, "update-hop:" + ";".join(b[:50] for b in bad), "; ".join(bad), gen.loc(c))
-        else:
-            r.ok(reg.qualname, f"self.{attr} -> {sub.name}.{obs_field} -> filter update, whole list at every hop", gen.loc(c), obligations=2 + len(ups))
-
-    r.guard("update-hop", update_hop)
+    r.guard("update-hop", lambda: update_hop(r, p))
 
     # remote-handle typing
     def handles():
